@@ -898,9 +898,10 @@ Proof.
 Qed.
 
 Section Threshold.
+  Variable nm : N -> N.                (* the threshold policy: arbitrary *)
   Lemma do_collect_safe s extra :
     inv s -> heap_ok s ->
-    exists s' fin, do_collect true true s extra = Ok (s', fin) /\ collection_safe s extra fin s' /\ inv s'.
+    exists s' fin, do_collect true true nm s extra = Ok (s', fin) /\ collection_safe s extra fin s' /\ inv s'.
   Proof.
     intros Hinv [Hwf Hraw]. pose proof Hinv as [Hr Ho].
     destruct (collect_safe_thm (st_heap s) (st_reg s) (st_minptr s) (st_maxptr s) (st_order s) (st_tls s)
@@ -920,7 +921,7 @@ Section Threshold.
      is safe, and the registry-side invariants are kept *)
   Lemma threshold_collect_safe_lemma s e s1 extra :
     collection_point s e = Some (s1, extra) -> inv s1 -> heap_ok s1 ->
-    exists s' fin, step true true true s e = Ok (s', fin) /\ collection_safe s1 extra fin s' /\ inv s'.
+    exists s' fin, step true true true nm s e = Ok (s', fin) /\ collection_safe s1 extra fin s' /\ inv s'.
   Proof.
     intros Hcp Hinv Hok. destruct e as [p c root| | | | |]; cbn [collection_point] in Hcp; try discriminate.
     - cbn [step]. destruct (st_mitems s <? st_nitems (alloc_state s p c root))%N; [|discriminate].
@@ -929,7 +930,7 @@ Section Threshold.
   Qed.
 
   Lemma inv_step s e s' fin :
-    inv s -> event_ok s e -> step true true true s e = Ok (s', fin) ->
+    inv s -> event_ok s e -> step true true true nm s e = Ok (s', fin) ->
     (forall s1 extra, collection_point s e = Some (s1, extra) -> heap_ok s1) -> inv s'.
   Proof.
     intros Hinv Hev Hstep Hok. destruct e as [p c root|p c|tls stack|p' c' root'|p|].
@@ -959,18 +960,18 @@ Section Threshold.
 
   (* every history: as long as each event is admissible and the heap is well formed at each
      collection point, every step succeeds and every collection in it is safe *)
-  Fixpoint hist_safe (tr mg fw : bool) (s : state) (es : list event) : Prop :=
+  Fixpoint hist_safe (tr mg fw : bool) (nmi : N -> N) (s : state) (es : list event) : Prop :=
     match es with
     | [] => True
     | e :: r =>
       event_ok s e ->
       (forall s1 extra, collection_point s e = Some (s1, extra) -> heap_ok s1) ->
-      exists s' fin, step tr mg fw s e = Ok (s', fin)
+      exists s' fin, step tr mg fw nmi s e = Ok (s', fin)
         /\ (forall s1 extra, collection_point s e = Some (s1, extra) -> collection_safe s1 extra fin s')
-        /\ hist_safe tr mg fw s' r
+        /\ hist_safe tr mg fw nmi s' r
     end.
 
-  Lemma history_collect_safe_lemma : forall es s, inv s -> hist_safe true true true s es.
+  Lemma history_collect_safe_lemma : forall es s, inv s -> hist_safe true true true nm s es.
   Proof.
     induction es as [|e r IH]; intros s Hinv; cbn [hist_safe]; [exact I|].
     intros Hev Hok.
@@ -983,7 +984,7 @@ Section Threshold.
       destruct (threshold_collect_safe_lemma s e s1 extra Hcp Hinv1 (Hok _ _ eq_refl)) as (s' & fin & Hs & Hsafe & Hinv').
       exists s', fin. split; [exact Hs|]. split; [|apply IH; exact Hinv'].
       intros s1' extra' E. inversion E; subst. exact Hsafe.
-    - assert (Hs : exists s' fin, step true true true s e = Ok (s', fin)).
+    - assert (Hs : exists s' fin, step true true true nm s e = Ok (s', fin)).
       { destruct e as [p c root|p c|tls stack|p' c' root'|p|]; cbn [collection_point] in Hcp; cbn [step].
         - destruct (st_mitems s <? st_nitems (alloc_state s p c root))%N; [discriminate|eauto].
         - eauto.
@@ -1196,7 +1197,7 @@ Definition ex_state1 : state := alloc_state ex_state w64 (mk_contents KRef [w56]
 Lemma ex_threshold_point :
   event_ok ex_state ex_event /\
   collection_point ex_state ex_event = Some (ex_state1, [w64]) /\ inv ex_state1 /\ heap_ok ex_state1 /\
-  exists s', step true true true ex_state ex_event = Ok (s', []).
+  exists s', step true true true mitems_3_2 ex_state ex_event = Ok (s', []).
 Proof.
   split; [|split; [|split; [|split]]].
   - split; [vm_compute; reflexivity|split; [discriminate|vm_compute; reflexivity]].
@@ -1216,16 +1217,16 @@ Definition fin_hist : list event :=
   [EAlloc w8 NoPtr false; ERoots [] []; ECollect; EFinAlloc w16 (Words []) false; ERoots [] [w16]; ECollect].
 
 Lemma fin_hist_kept_post :
-  exists s, run true true true st0 fin_hist = Ok (s, [[]; []; [w8]; []; []; []]).
+  exists s, run true true true mitems_3_2 st0 fin_hist = Ok (s, [[]; []; [w8]; []; []; []]).
 Proof. eexists. vm_compute. reflexivity. Qed.
 
 Lemma fin_hist_freed_pre :
   exists s5 fr5 s6,
-    run true true false st0 (firstn 5 fin_hist) = Ok (s5, fr5) /\
+    run true true false mitems_3_2 st0 (firstn 5 fin_hist) = Ok (s5, fr5) /\
     registered (st_reg s5) w16 = true /\
     reach (st_heap s5) (st_reg s5) (st_tls s5) (st_stack s5) w16 /\
     ~ range_ok (st_reg s5) (st_minptr s5) (st_maxptr s5) /\
-    step true true false s5 ECollect = Ok (s6, [w16]).
+    step true true false mitems_3_2 s5 ECollect = Ok (s6, [w16]).
 Proof.
   eexists. eexists. eexists. split; [vm_compute; reflexivity|].
   split; [vm_compute; reflexivity|]. split; [apply reach_stack; vm_compute; auto|].
